@@ -230,6 +230,26 @@ pub fn t2_check_crc_many(ctx: &Ctx) {
     ctx.nontrivial();
 }
 
+/// T1c: every colour triple over {0, 1, 2, 254, 255} (125 lines): small values that could be taken
+/// for normalised colours, the extremes, and their neighbours, in every combination
+pub fn t1_colours(ctx: &Ctx) {
+    let rot = ctx.pick("channel-rotation", 3);
+    const V: [u8; 5] = [0, 1, 2, 254, 255];
+    let mut lines = Vec::new();
+    for i in 0..125usize {
+        let t = [V[i % 5], V[i / 5 % 5], V[i / 25]];
+        let rgb = [t[rot % 3], t[(rot + 1) % 3], t[(rot + 2) % 3]];
+        let xyz = [i as f32 * 0.25, -1.5, 3.0 + i as f32];
+        lines.push(Line { text: format!("{} {} {} {} {} {}", xyz[0], xyz[1], xyz[2], rgb[0], rgb[1], rgb[2]), exp: Some((xyz, rgb)) });
+    }
+    ctx.describe(|| format!("125 lines with every colour triple over {{0,1,2,254,255}}, channel rotation {rot}"));
+    ctx.evals(125);
+    if roundtrip_xyz(ctx, &lines, "\n", true, &format!("colour triples, rotation {rot}")) {
+        ctx.observe_u64(rot as u64);
+        ctx.nontrivial();
+    }
+}
+
 /// T1b: line shapes within <= 2 deviations of "6 clean columns"; line counts 0, 1, cap-1, cap, cap+1
 pub fn t1_shapes(ctx: &Ctx) {
     let count_kind = ctx.pick("line-count", 6);
